@@ -1170,6 +1170,8 @@ val lins_eqb : lins -> lins -> bool
 
 val limit_ok : lins list -> bool
 
+val frame_ok : z -> z -> z -> bool
+
 type kind =
 | KPrintIr
 | KPrintBc
